@@ -8,6 +8,7 @@ package record_test
 import (
 	"bytes"
 	"crypto/ecdsa"
+	"crypto/ed25519"
 	"crypto/elliptic"
 	"crypto/rand"
 	"testing"
@@ -67,6 +68,12 @@ func c08PrivBlobs(t *testing.T, out *verifh.Out, r *verifh.Rand, k *keyInfo, lab
 		l := (&line{}).z(19, k.kt, region).b(orig).b(mut)
 		var pm cpb.PrivateKey
 		perr := proto.Unmarshal(mut, &pm)
+		// for an Ed25519 blob: the public key of its seed, computed by the standard library
+		var derived []byte
+		if perr == nil && pm.GetType() == cpb.KeyType_Ed25519 && len(pm.GetData()) >= ed25519.SeedSize {
+			derived = ed25519.NewKeyFromSeed(pm.GetData()[:ed25519.SeedSize])[ed25519.SeedSize:]
+		}
+		l.b(derived)
 		sk2, uerr := crypto.UnmarshalPrivateKey(mut)
 		var cls, eqAny, eqAll, remeq, selfok, crossok int64
 		switch {
@@ -262,4 +269,83 @@ func c08ReusedDestination(t *testing.T, out *verifh.Out, r *verifh.Rand, a, b *k
 	}
 	out.Case(l.z(0).b(nil).b(nil).b(nil).v)
 	out.Cover("reused_destination.generic_record")
+}
+
+// Fixed corpus of the defect repaired in /repo a5f52a7 (UnmarshalEd25519PrivateKey did not
+// compare the public half with the seed): a FIXED key (seed 01 02 .. 20) whose blobs with an
+// altered seed / altered public half must be unmarshal errors.  Executed on every run; a
+// regression shows as clause 192 with these very bytes.
+func c08FixedCorpus(t *testing.T, out *verifh.Out, r *verifh.Rand) {
+	seed := make([]byte, ed25519.SeedSize)
+	for i := range seed {
+		seed[i] = byte(i + 1)
+	}
+	std := ed25519.NewKeyFromSeed(seed)
+	blob := mustMarshal(t, &cpb.PrivateKey{Type: cpb.KeyType_Ed25519.Enum(), Data: std})
+	sk, err := crypto.UnmarshalPrivateKey(blob)
+	if err != nil {
+		// even the honest blob is refused: report it as the untouched round trip failing
+		out.Case((&line{}).z(19, 1, 0).b(blob).b(blob).b(std[32:]).z(2, 0, 0, 0, 0, 0).v)
+		out.Cover("corpus.ed25519_halves.honest_blob_rejected")
+		return
+	}
+	k := keyInfoOf(t, sk, sk.GetPublic())
+	c08PrivBlobs(t, out, verifh.NewRand(20260923), k, "corpus_ed25519_halves", 1)
+	out.Cover("corpus.ed25519_halves.executed")
+}
+
+// kind 19, region 9: a private key object that did not come through Unmarshal: a standard
+// library Ed25519 key whose seed was altered, imported with KeyPairFromStdKey (verbatim).  It
+// must not be reported equal to the original key: what it signs does not verify under the
+// original public key.  (Only the equality clause is judged: nothing was unmarshalled.)
+func c08ImportedEd25519(t *testing.T, out *verifh.Out, r *verifh.Rand, k *keyInfo) {
+	if k.kt != 1 {
+		return
+	}
+	orig, err := crypto.MarshalPrivateKey(k.sk)
+	if err != nil {
+		t.Fatal(err)
+	}
+	raw, _ := k.sk.Raw()
+	msg := rbytes(r, 24)
+	for _, what := range []string{"untouched", "seed_bit", "seed_replaced"} {
+		std := ed25519.PrivateKey(append([]byte(nil), raw...))
+		switch what {
+		case "seed_bit":
+			std[r.Intn(32)] ^= byte(1 << uint(r.Intn(8)))
+		case "seed_replaced":
+			copy(std[:32], rbytes(r, 32))
+		}
+		sk2, _, err := crypto.KeyPairFromStdKey(&std)
+		if err != nil {
+			continue
+		}
+		mut, err := crypto.MarshalPrivateKey(sk2)
+		if err != nil {
+			continue
+		}
+		e := []bool{sk2.Equals(k.sk), k.sk.Equals(sk2), crypto.KeyEqual(sk2, k.sk), crypto.KeyEqual(k.sk, sk2)}
+		var eqAny, eqAll, remeq, selfok, crossok int64 = 0, 1, 0, 0, 0
+		for _, x := range e {
+			if x {
+				eqAny = 1
+			} else {
+				eqAll = 0
+			}
+		}
+		if bytes.Equal(mut, orig) {
+			remeq = 1
+		}
+		if sig, err := sk2.Sign(msg); err == nil {
+			if ok, err := sk2.GetPublic().Verify(msg, sig); err == nil && ok {
+				selfok = 1
+			}
+			if ok, err := k.pk.Verify(msg, sig); err == nil && ok {
+				crossok = 1
+			}
+		}
+		derived := ed25519.NewKeyFromSeed(std[:32])[32:]
+		out.Case((&line{}).z(19, 1, 9).b(orig).b(mut).b(derived).z(4, eqAny, eqAll, remeq, selfok, crossok).v)
+		out.Cover("privblob.imported_std_ed25519." + what)
+	}
 }
